@@ -294,7 +294,7 @@ func (f *fragmentList) build(in *layers.IPv4) (*layers.IPv4, error) {
 				return nil, errors.New("defrag: building - invalid fragment")
 			}
 			final = append(final, frag.Payload[startAt:]...)
-			currentOffset = currentOffset + frag.FragOffset*8
+			currentOffset = currentOffset + fragLength - startAt
 		} else {
 			// Houston - we have an hole !
 			debug.Printf("defrag: hole found while building, " +
